@@ -149,6 +149,23 @@ CLAIMED = {
                 "convergence orders for non-polynomial densities are not decided.",
         "technique": "canonical-form weight extraction + exact rational moment identities; structural selection/rebuild rules",
     },
+    "C06": {
+        "category": "other",
+        "text": "The protocol around the minimiser, not the optimum: on every path of FitBase.do_fit each minimiser run is preceded by a fresh _pre_fit_iteration and "
+                "followed by _post_fit_iteration with the same first_fit flag (True exactly for the first pass), the data reference is installed before the first pass, "
+                "every later pass resets the minimiser between freeze and fit, and a refit happens iff the dynamic-uncertainty predicate holds (iterative: loop with "
+                "|cost - previous cost| < limit against the previous pass; nonlinear: exactly one refit); pre/post walk the same node list (update, freeze / unfreeze, "
+                "update, notify); the freeze lists have the documented conditions; the two refit predicates agree up to the algorithm name per class; MultiFit forwards "
+                "each step to all members. Fixed / limited parameters: the fitter forwards fix / release / limit / unlimit to the backend and records them on every "
+                "path, sets a given value before fixing, and re-evaluates the graph at the backend's final values; the iminuit adapter rebuilds the Minuit object from "
+                "the stored specification with value, fixed flag and limits of every parameter (a guarded application is accepted only if release rebuilds or re-applies), "
+                "every mutator updates the specification; the scipy adapter packs free parameters and unpacks the result through one index map, passes the bounds of the "
+                "free parameters, writes the result back, and stores parameter values as floats.",
+        "note": "Local minimality of the reported optimum, agreement of the backends, and the fixed-point property of the iterative treatment are numerical statements "
+                "about MIGRAD / scipy.optimize and are not decided. The index-map rule is a shape rule on MinimizerScipyOptimize.minimize (the expressions are compared "
+                "as written after whitespace normalisation).",
+        "technique": "CFG path rules (bracketing, dominance) + sibling agreement + per-backend structural tables",
+    },
     "C07": {
         "text": "Definitions behind the reported parameter uncertainties as formula-shape and bookkeeping rules on the source: covariance = 2 x errordef x inverse "
                 "Hessian in the generic adapter and the two inverse relations in the iminuit adapter (canonical-form equality, factors cancel to the identity); "
